@@ -7,7 +7,10 @@ Props/C10.v stops compiling (a changed std.prql becomes a broken obligation).
 """
 import os
 
+import re
+
 from ..common import REPO, gen_write, harness1
+from .. import rustscan
 
 STD = os.path.join(REPO, "prqlc", "prqlc", "src", "semantic", "std.prql")
 SCALAR_TYPES = {"int", "float", "bool", "text", "date", "time", "timestamp"}
@@ -103,10 +106,54 @@ def extract():
     return {"names": names, "sigs": sigs, "param_names": pnames}
 
 
+def extract_cfg():
+    """What two pieces of the resolver / lowerer look like NOW (Model/Scope.v `cfg`); pinned shapes, anything else fails closed.
+
+    cfg_that_rejected  semantic/lowering.rs, lower_expr's Ident arm: between the test `Some(DeclKind::Module(_) |
+                       DeclKind::LayeredModules(_))` and the `SString(vec![InterpolateItem::String(ident.name)])` fallback
+                       there is / is not a test of the bare name NS_THAT (`ident.path.is_empty() && ident.name == NS_THAT`).
+    cfg_parent_walk    semantic/resolver/names.rs, resolve_ident: the retries drop the first part with `pop_front()` (twice:
+                       relation and value branch) / take prefixes `path[..n]` of current_module_path (twice)."""
+    src = rustscan.read("prqlc/prqlc/src/semantic/lowering.rs")
+    m = rustscan.mask(src)
+    a = re.search(r"Some\s*\(\s*DeclKind::Module\s*\(\s*_\s*\)\s*\|\s*DeclKind::LayeredModules\s*\(\s*_\s*\)\s*\)", m)
+    b = re.search(r"rq::ExprKind::SString\s*\(\s*vec!\s*\[\s*InterpolateItem::String\s*\(\s*ident\.name\s*\)\s*\]\s*\)", m)
+    if not a or not b or b.start() < a.end():
+        raise ExtractError("lowering.rs: the ident arm of lower_expr (module test ... unresolved-ident fallback) is not where it was")
+    region = m[a.end():b.start()]
+    if len(region) > 2500:
+        raise ExtractError("lowering.rs: module test and fallback are %d characters apart" % len(region))
+    if not re.search(r"\bis_relation\s*\(\s*\)", region) or not re.search(r"!\s*self\.in_interpolation", region):
+        raise ExtractError("lowering.rs: the relation-variable test of a131b2a is gone")
+    n_that = len(re.findall(r"\bNS_THAT\b", m[max(0, a.start() - 400):b.start()]))
+    if n_that == 0:
+        that_rejected = False
+    elif n_that == 1 and re.search(r"ident\.path\.is_empty\s*\(\s*\)\s*&&\s*ident\.name\s*==\s*NS_THAT", m[max(0, a.start() - 400):b.start()]):
+        that_rejected = True
+    else:
+        raise ExtractError("lowering.rs: NS_THAT is mentioned in the ident arm in a shape the translator does not know")
+
+    src2, m2, s2, e2 = rustscan.fn_body("prqlc/prqlc/src/semantic/resolver/names.rs", r"fn\s+resolve_ident\s*\(")
+    body = m2[s2:e2]
+    if len(re.findall(r"current_module_path", body)) < 2 or "default_namespace" not in body:
+        raise ExtractError("names.rs: resolve_ident no longer walks current_module_path in both branches")
+    n_pop = len(re.findall(r"\.pop_front\s*\(\s*\)", body))
+    n_pre = len(re.findall(r"\bpath\s*\[\s*\.\.\s*n\s*\]", body))
+    if n_pop == 2 and n_pre == 0:
+        parent_walk = False
+    elif n_pop == 0 and n_pre == 2 and re.search(r"\(\s*1\s*\.\.=\s*path\.len\s*\(\s*\)\s*\)\s*\.rev\s*\(\s*\)", body) \
+            and re.search(r"\(\s*0\s*\.\.\s*path\.len\s*\(\s*\)\s*\)\s*\.rev\s*\(\s*\)", body):
+        parent_walk = True
+    else:
+        raise ExtractError("names.rs: resolve_ident's retries are neither the pop_front walk nor the prefix walk (pop_front x%d, path[..n] x%d)" % (n_pop, n_pre))
+    return {"that_rejected": that_rejected, "parent_walk": parent_walk}
+
+
 def generate():
     try:
         info = extract()
-    except (ExtractError, KeyError, TypeError) as ex:
+        info["cfg"] = extract_cfg()
+    except (ExtractError, rustscan.ExtractError, KeyError, TypeError) as ex:
         gen_write("GenC10Std", "(* EXTRACTION FAILED: %s *)\nDefinition gen_c10_std_extraction_failed := tt.\n" % str(ex).replace("*)", "* )"))
         return {"error": str(ex)}
     v = "(* generated from /repo (semantic/std.prql, via prqlc's own parser) on every run by vplib/props/c10_std.py -- do not edit *)\n"
@@ -116,5 +163,7 @@ def generate():
     v += "Definition std_sigs : list (list str * fsig) :=\n  [ " + ";\n    ".join(
         "([%s], mkSig [%s] [%s]) (* %s *)" % ("; ".join(codes(p) for p in path), "; ".join(ps), "; ".join(codes(n) for n in named), ".".join(path))
         for path, ps, named in info["sigs"]) + " ].\n"
+    v += "\n(* what lower_expr's ident arm and resolve_ident's module walk look like in the source now (extract_cfg) *)\n"
+    v += "Definition head_cfg : cfg := mkCfg %s %s.\n" % ("true" if info["cfg"]["that_rejected"] else "false", "true" if info["cfg"]["parent_walk"] else "false")
     gen_write("GenC10Std", v)
     return info
